@@ -5,7 +5,7 @@ NOTES = ("All checks decide their property by bounded symbolic execution of /rep
 CHECKS = {
     "C07": dict(
         text="Every path of the ASN.1 writers/readers for symbolic integers (|v| <= 2^72 quick, 2^520 thorough), booleans, OIDs (2..8 arcs, arcs < 2^64), "
-             "tags (class x constructed x number < 2^32), listed content lengths, content whose LENGTH is a solver variable over [0, 2^32) (thorough 2^64), a nested writer tree and 11 operation histories (peek/skip/read/remaining) on one reader is explored; on each path z3 proves the emitted "
+             "tags (class x constructed x number < 2^32), listed content lengths, content whose LENGTH is a solver variable over [0, 2^32) (thorough 2^64), a nested writer tree, UTF8String text whose code points are solver variables over all of Unicode, repeated packing of the same value, and 11 operation histories (peek/skip/read/remaining) on one reader is explored; on each path z3 proves the emitted "
              "octets equal an independent minimal-DER reference and the reader returns the value and consumes exactly the encoding. Exhaustive within "
              "those bounds, not beyond.",
         note="Trusted: the symbolic interpreter (cross-checked natively on every explored path), z3, the X.690 reference encoder in props/refs.py. "
@@ -18,13 +18,13 @@ CHECKS = {
              "real KDF. Quick tier: one hash for the lattice (the hash only selects the stub's algorithm check); thorough: 4 hashes x 3 L0 values on the root route."),
     "C09": dict(
         text="_get_protection_gke_from_cache is executed with time.time_ns() symbolic over [0, 2^63); z3 proves (QF_BV, or QF_BVFP when the code divides in "
-             "floating point) that the (L0,L1,L2) handed to the cache equal floor(t/(1024b)), floor(t/(32b)) mod 32, floor(t/b) mod 32 for every instant. Propagation harnesses parse the key identifier back from the emitted blob (root-key or seed-key cache state, clock in windows around L2/L1/L0 boundaries), including a two-call history with a clock that advances between reads.",
+             "floating point) that the (L0,L1,L2) handed to the cache equal floor(t/(1024b)), floor(t/(32b)) mod 32, floor(t/b) mod 32 for every instant. Propagation harnesses parse the key identifier back from the emitted blob (root-key or seed-key cache state, clock in windows around L2/L1/L0 boundaries), including a two-call history with a clock that advances (or is stepped back) between reads. Every check runs in a non-UTC time zone set before the library is imported.",
         note="Trusted: interpreter, z3's bit-vector and floating-point theories, the CPython int/int model (correct rounding via 130-bit intermediate). "
              "Clock values outside 1970..2262 are outside the claim."),
     "C16": dict(
         text="RpcClient._process_response (with PDU.unpack, Response._unpack, SecTrailer.unpack below it) is executed on a fully symbolic adversarial reply of each "
              "listed length against an ideal security context holding one authentic sealed reply; on every path that returns a Response z3 proves its stub equals the "
-             "sealed plaintext (and, with header signing, that the trailer is the authenticated one); replies of any other packet type must raise. History: after an altered (rejected) first reply the next request on the same client is still sealed and a second, fully symbolic reply is only accepted if sealed.",
+             "sealed plaintext (and, with header signing, that the trailer is the authenticated one); replies of any other packet type must raise. History: after an altered (rejected) first reply the next request on the same client is still sealed and a second, fully symbolic reply is only accepted if sealed; request and reply side of one exchange together (incl. the empty stub): the request must be sealed and no reply may be accepted when the peer sealed nothing.",
         note="Trusted: interpreter, z3, the ideal-unwrap contract (only the authentic buffers verify). Strength of NTLM/Kerberos sealing and reply lengths not listed "
              "are outside the claim."),
     "C18": dict(
@@ -39,7 +39,7 @@ CHECKS = {
         note="Trusted: interpreter, z3, resolver stub. More than 5 records and unlisted domain strings are outside the claim."),
     "C12": dict(
         text="Every pack/unpack pair of the DCE/RPC PDUs, security trailer, verification-trailer commands, tower floors and ept_map messages is executed on messages whose "
-             "fields are solver variables over their wire widths (list sizes and payload lengths listed); z3 proves repack(unpack(pack(x))) == pack(x) and field "
+             "fields are solver variables over their wire widths (list sizes and payload lengths listed; towers of equal shape may be equal; listed non-ASCII secondary addresses); z3 proves repack(unpack(pack(x))) == pack(x) and field "
              "equality on every path. Every decoder is also run on every byte string of the listed short lengths, where each path must end within the step budget.",
         note="Trusted: interpreter, z3. List sizes / payload lengths not listed and arbitrary buffers longer than 16 (36 for PDUs) bytes are outside the claim; a security "
              "trailer with an empty auth value is treated as not well-formed (auth_length 0 means no trailer)."),
@@ -53,7 +53,7 @@ CHECKS = {
              "content, and for a stub whose LENGTH is a solver variable (opaque content), context id and opnum against a recording security-context stub; z3 proves frag_len/auth_len, the 4-byte alignment of the verification trailer, the "
              "16-byte alignment and pad_length of the security trailer, that exactly header|stub+pad|trailer reach wrap, and the wire layout. Reply side: exactly pad_length "
              "bytes are stripped before GetKey.unpack_response for every listed (length, pad).",
-        note="Trusted: interpreter, z3, the security-context stub. Content-symbolic stubs have listed lengths (0..48 and boundaries quick; 0..320 thorough); the symbolic-length harness covers every length up to its bound with opaque content; a second request on the same client must be framed on its own."),
+        note="Trusted: interpreter, z3, the security-context stub. Content-symbolic stubs have listed lengths (0..48 and boundaries quick; 0..320 thorough); the symbolic-length harness covers every length up to its bound with opaque content; a second request on the same client and a request on a second connection with another signature size must be framed on their own."),
     "C15": dict(
         text="SyncRpcClient.bind / AsyncRpcClient.bind are executed against a scripted authentication provider (1..4 legs, optional empty final token) and a scripted server "
              "whose reply to each client PDU is chosen by the solver (proper ack with symbolic result vector / header-sign flag / token, bind_nak, fault, response, ack of the "
@@ -66,7 +66,7 @@ CHECKS = {
              "decodes (independent parser) to SYSTEM owner/group and the two prescribed ACEs with consistent offsets/sizes. The accepted grammar is decided by translating "
              "the regular expression the function actually applies (captured at run time) to a z3 regex with Python semantics and two language-inclusion queries.",
         note="Trusted: interpreter, z3 (bit-vectors and the sequence/regex theory), the regex translation, the SD parser in props/c08.py. Leading-zero decimal forms are "
-             "not exercised symbolically; near-miss strings of the statement are additionally replayed natively."),
+             "not exercised symbolically; near-miss strings of the statement (plus whitespace variants) are additionally replayed natively through sid_to_bytes and through ProtectionDescriptor.parse(...).get_target_sd()."),
     "C06": dict(
         text="DPAPINGBlob.pack/unpack with KeyIdentifier, ProtectionDescriptor and all _pkcs7 classes are executed on blob values whose key-identifier fields, root key id, "
              "key_info/enc_cek/nonce and content boundary octets are solver variables (sizes listed across the DER length-form boundaries, both layouts); z3 proves the bytes "
@@ -87,11 +87,13 @@ CHECKS = {
         note="Trusted: interpreter, z3, the ideal-primitive contracts (incl. no collisions between distinct outputs). Bit-level crypto, clock instants outside the windows "
              "(composed from C09 and C02), unlisted lengths/SIDs and P521 are outside this check's claim."),
     "C19": dict(
-        text="2..4 consecutive protect calls (identical or different arguments, one unprotect interleaved) are executed in one path against an RNG stub that tags every draw; "
-             "z3 proves that each emitted blob's GCM nonce, content-encryption key (recovered through the key-wrap record) and key-identifier nonce equal the values of draws "
-             "made during that very call, one role per draw, no draw shared between calls; in public-key mode the ephemeral public key must be the group element of a "
-             "private key drawn during the call.",
-        note="Trusted: interpreter, z3, the stubs. Statistical quality of the OS RNG is outside the technique; distinctness follows from the RNG assumption."),
+        text="2..4 consecutive protect calls (identical or different arguments, one unprotect interleaved) and histories of 34 (thorough 130, 260) calls are executed in one path "
+             "against an RNG stub that tags every draw; z3 proves that each emitted blob's GCM nonce, content-encryption key (recovered through the key-wrap record) and "
+             "key-identifier nonce are RNG output (a draw made at any earlier point of the history, or a contiguous slice of one) and that the pieces of RNG output used by all "
+             "blobs and roles are pairwise disjoint; in public-key mode (DH, P256, P384, P521; with and without an explicit root key id on one cache) the ephemeral public key must "
+             "be the group element of such a draw.",
+        note="Trusted: interpreter, z3, the stubs. Statistical quality of the OS RNG is outside the technique; distinctness follows from the RNG assumption. Material that is computed "
+             "rather than drawn (a counter-based nonce) is not recognised as fresh and would be reported."),
     "C04": dict(
         text="A valid blob is produced symbolically by protect (symbolic plaintext, root key, CEK, nonces, ciphertext; both layouts) and then altered: one byte replaced by a "
              "symbolic value at structural positions (thorough: every position), truncation, deletion and insertion of a symbolic byte, two-site substitutions; a re-keyed forgery (position, key_info, wrapped CEK, nonce and content replaced using only public key material); a forgery into public-key mode with a DH public key in a group of the forger's own or with degenerate / ordinary values in the root key's group (modular exponentiation obeys its exponent-independent laws); an algorithm downgrade (content OID replaced by one of 10 others; non-GCM modes decrypt without authentication in the stub world); content_decrypt on a message of symbolic length (up to 2^18, thorough 2^21) that is truncated / stripped / cut / extended at solver-chosen points; unprotect is "
@@ -101,7 +103,7 @@ CHECKS = {
              "DESIGN.md); one configuration (SHA512, nonce mode, 5-byte plaintext)."),
     "C05": dict(
         text="Every ASN.1 reader, the CMS/blob/key-identifier decoders and the offline unprotect path are executed on arbitrary byte strings of stated small sizes, on key "
-             "identifiers whose L0/L1/L2/flags/length fields are fully symbolic, and on a valid symbolic blob with a symbolic byte at structural positions / truncations; every "
+             "identifiers whose L0/L1/L2/flags/length fields are fully symbolic, on a valid symbolic blob with a symbolic byte at structural positions / truncations, and on 18 re-encodings of the CMS structure that are valid DER but not the expected shape (0/2/3 recipients, missing members, 3000-deep nestings; CPython's recursion limit is modelled); every "
              "path must end in a return, a cache miss or one of the deliberate error types within the statement budget, with at most 67 key-derivation steps and no "
              "allocation whose size is taken unchecked from the input.",
         note="Trusted: interpreter, z3, ideal-primitive and DH-algebra stubs. Whole-blob arbitrary buffers of realistic size are outside the technique; the composition "
@@ -110,15 +112,15 @@ CHECKS = {
         text="One inductive step from an arbitrary valid cache state: KeyCache._get_key and _store_key are executed with the stored envelope (absent or at any position of "
              "[0,31]^2 with the chain keys of its own position), the root-key flag and the requested / stored position all symbolic; z3 proves the representation invariant is "
              "preserved, a returned envelope always covers the request and derives the spec key, no RPC is needed when covering material exists, the stored position never "
-             "decreases and a neighbour triple is untouched. The cache methods' ASTs are checked to contain no await, so interleavings are sequences of these steps. The protect glue (_get_protection_gke_from_cache then _store_key) is a third step. Eleven "
-             "operation histories (seed-key and public-key replies) run through the public API against a conforming-DC stub with an RPC counter.",
+             "decreases and a neighbour triple is untouched. The cache methods' ASTs are checked to contain no await, so interleavings are sequences of these steps. The protect glue (_get_protection_gke_from_cache then _store_key) is a third step. Thirteen "
+             "operation histories (two with a second call running to completion while the first waits for its GetKey reply) (seed-key and public-key replies) run through the public API against a conforming-DC stub with an RPC counter.",
         note="Trusted: interpreter, z3, the invariant (MS-GKDI 2.2.4 shapes), chain-step KDF stub, conforming-DC stub. L0 is a listed dictionary key; await-point interleaving of "
              "the async API is argued from the AST check, not executed."),
     "C03": dict(
         text="GroupKeyEnvelope.new_kek / get_kek, compute_kek(_from_public_key), compute_public_key, the FFCDHKey/ECDHKey codecs and the _crypto.kdf / kdf_concat wrappers are "
              "executed for nonce mode, DH (symbolic p, g over small groups where leading-zero values dominate, and the RFC 5114 group) and ECDH P256/P384 with symbolic seeds, "
              "ephemeral keys and coordinates; z3 proves the encrypting side's KEK equals the decrypting side's on every path, that every KDF invocation has exactly the prescribed "
-             "SP800-108 / SP800-56A parameterisation (captured constructor arguments), and that shared secrets and packed values have exactly key_length octets; a two-derivation history with different hashes on the same seed must agree with fresh derivations.",
+             "SP800-108 / SP800-56A parameterisation (captured constructor arguments), and that shared secrets and packed values have exactly key_length octets; a two-derivation history with different hashes on the same seed must agree with fresh derivations; the defaults of KeyCache.load_key are compared with an independently transcribed, self-checking RFC 5114 section 2.3 group.",
         note="Trusted: interpreter, z3, DH algebra stub (commutativity only, no coincidences), KDF classes replaced at their constructors. NOT decided: that cryptography's "
              "KBKDFHMAC/ConcatKDFHash/ECDH equal an independent implementation bit for bit (hashing is outside solver reach); P521; other key lengths."),
     "C17": dict(
